@@ -123,12 +123,19 @@ func scanDecode(out string) (string, error) {
 var c07Positions = []string{"print", "chain-last", "chain-first", "apply", "macro", "include", "loop",
 	"after:abs", "after:round", "after:number_format", "after:number_format(1, '<', '&')", "after:trim", "after:default('<d>')", "after:lower", "after:length", "after:first", "after:join('<')", "after:replace({'a': '<'})", "after:nl2br",
 	// escaping what is already escaped escapes it again (the text to get back is the output of the first pass)
-	"after:e", "after:escape", "after:e|escape", "after:raw|e", "after:upper|upper"}
+	"after:e", "after:escape", "after:e|escape", "after:raw|e", "after:upper|upper",
+	// "expr:<E>" = the escape filter applied to an expression that has filtered operands, filtered filter arguments or
+	// filtered elements of its own; the text that must come back is what {{ E }} prints
+	"expr:(v|trim ~ v|lower)", "expr:v|default(v|trim|lower)", "expr:[v|trim, v|upper]|join(' ')", "expr:(true ? v|trim : v|upper)", "expr:{'k': v|trim|lower}.k", "expr:(v|raw ~ (v|trim|upper))|trim", "expr:v|replace({'zz': v|upper})"}
 
 func c07Templates(pos, filter string) map[string]string {
 	t := map[string]string{}
 	if strings.HasPrefix(pos, "after:") {
 		t["main"] = "{{ v|" + strings.TrimPrefix(pos, "after:") + "|" + filter + " }}"
+		return t
+	}
+	if strings.HasPrefix(pos, "expr:") {
+		t["main"] = "{{ (" + strings.TrimPrefix(pos, "expr:") + ")|" + filter + " }}"
 		return t
 	}
 	switch pos {
@@ -154,8 +161,12 @@ func c07Templates(pos, filter string) map[string]string {
 func (p *c07) checkOne(rec *core.Recorder, input interface{}, text string, pos, filter string, fallback bool) bool {
 	srcs := c07Templates(pos, filter)
 	rec.Count("position:"+pos, 1)
-	if strings.HasPrefix(pos, "after:") {
-		pre := renderFresh(map[string]string{"main": "{{ v|" + strings.TrimPrefix(pos, "after:") + " }}"}, "main", map[string]interface{}{"v": input}, func(e *twig.Engine) {
+	if strings.HasPrefix(pos, "after:") || strings.HasPrefix(pos, "expr:") {
+		preSrc := "{{ v|" + strings.TrimPrefix(pos, "after:") + " }}"
+		if strings.HasPrefix(pos, "expr:") {
+			preSrc = "{{ " + strings.TrimPrefix(pos, "expr:") + " }}"
+		}
+		pre := renderFresh(map[string]string{"main": preSrc}, "main", map[string]interface{}{"v": input}, func(e *twig.Engine) {
 			if fallback {
 				e.VerifUnregisterFilter("e")
 				e.VerifUnregisterFilter("escape")
